@@ -407,6 +407,11 @@ type Conn struct {
 	YieldOnErrInspect bool
 	Deadlines       int
 	WDeadline       time.Time
+	RDeadline       time.Time
+	// EnforceReadDeadline makes a Read that starts after the read deadline fail
+	// with a timeout error.
+	EnforceReadDeadline bool
+	ReadTimeouts        int
 	// EnforceDeadline makes a write fail with a timeout error when the write
 	// deadline has passed by the time the write is scheduled.
 	EnforceDeadline bool
@@ -428,7 +433,18 @@ func NewDuplex(s *kernel.Sched, tape *kernel.Tape, an, bn string) (a, b *Conn) {
 	return &Conn{In: ba, Out: ab, name: an}, &Conn{In: ab, Out: ba, name: bn}
 }
 
-func (c *Conn) Read(b []byte) (int, error) { return c.In.Read(b) }
+func (c *Conn) Read(b []byte) (int, error) {
+	if c.EnforceReadDeadline {
+		c.Out.mu.Lock()
+		dl := c.RDeadline
+		c.Out.mu.Unlock()
+		if !dl.IsZero() && !time.Now().Before(dl) {
+			c.ReadTimeouts++
+			return 0, timeoutError{c}
+		}
+	}
+	return c.In.Read(b)
+}
 // ErrTimeout is what a write returns when the connection's write deadline has
 // passed (EnforceDeadline).
 type timeoutError struct{ c *Conn }
@@ -505,10 +521,16 @@ func (c *Conn) RemoteAddr() net.Addr               { return addr("peer-of-" + c.
 func (c *Conn) SetDeadline(t time.Time) error {
 	c.Out.mu.Lock()
 	c.WDeadline = t
+	c.RDeadline = t
 	c.Out.mu.Unlock()
 	return nil
 }
-func (c *Conn) SetReadDeadline(t time.Time) error  { return nil }
+func (c *Conn) SetReadDeadline(t time.Time) error {
+	c.Out.mu.Lock()
+	c.RDeadline = t
+	c.Out.mu.Unlock()
+	return nil
+}
 func (c *Conn) SetWriteDeadline(t time.Time) error {
 	c.Out.mu.Lock()
 	c.Deadlines++
